@@ -1,5 +1,123 @@
 package rules
 
-import "verif/checker/internal/core"
+import (
+	"go/token"
 
-func runC06Consume(c *core.Ctx) {}
+	"golang.org/x/tools/go/ssa"
+
+	"verif/checker/internal/core"
+)
+
+// runC06Consume: each bundled decoder, on its possibly-nil returns, has read
+// its input to EOF or rejects trailing content, so that the hasher teed into
+// the reader by Fill has seen the whole block on success.
+func runC06Consume(c *core.Ctx) {
+	p := c.P
+	c.Rule("C06.consume", "each bundled decoder consumes its whole input before a possibly-nil return: dag-cbor and dag-json return nil only behind err == io.EOF of a read after the item (dag-json additionally only after every extra byte compared equal to a whitespace constant); raw assigns exactly io.ReadAll(r) (or the reader's own whole Bytes()) and tests ReadAll's error", 5)
+	checkTrailing(c, "codec/dagcbor", "DecodeOptions", "Decode")
+	checkTrailing(c, "codec/dagjson", "DecodeOptions", "Decode")
+
+	// dag-json: whitespace discipline of the slurp loop
+	if fn := p.Func("codec/dagjson", "DecodeOptions", "Decode"); fn != nil {
+		key := core.FuncKey(fn)
+		var reads []*ssa.Call
+		for _, ci := range core.Calls(fn) {
+			if cv := core.CallValue(ci); cv != nil && core.IsMethodNamed(ci, "Read") && len(fn.Params) > 2 && core.Strip(core.Receiver(ci)) == ssa.Value(fn.Params[2]) {
+				reads = append(reads, cv)
+			}
+		}
+		isBuf0 := func(v ssa.Value) bool {
+			u, ok := v.(*ssa.UnOp)
+			if !ok || u.Op != token.MUL {
+				return false
+			}
+			ia, ok := u.X.(*ssa.IndexAddr)
+			if !ok {
+				return false
+			}
+			_, isAlloc := ia.X.(*ssa.Alloc)
+			i, isC := core.ConstInt(ia.Index)
+			return isAlloc && isC && i == 0
+		}
+		allowed := map[int64]bool{0: true, 9: true, 10: true, 13: true, 32: true}
+		badConst := false
+		ws := core.EdgesWhere(fn, func(r core.Rel) bool {
+			if r.Op != token.EQL || !isBuf0(r.X) {
+				return false
+			}
+			k, ok := core.ConstInt(r.Y)
+			if !ok {
+				return false
+			}
+			if !allowed[k] {
+				badConst = true
+				return false
+			}
+			return true
+		})
+		errIdx := core.ErrResultIndex(fn)
+		for _, rd := range reads {
+			path, reached := core.Reach(fn, rd, func(in ssa.Instruction) bool {
+				ret, ok := in.(*ssa.Return)
+				return ok && core.ResultNilness(ret, errIdx) != core.NonNil
+			}, ws, func(in ssa.Instruction) bool { return in == ssa.Instruction(rd) })
+			c.Check(!reached && len(ws) > 0, key+"#whitespace-only", p.Pos(rd.Pos()), "after each extra read a nil return is only reachable when the byte equals a JSON whitespace constant (or 0 from an empty read)", "a nil return is reachable after reading an extra byte that was not compared equal to whitespace: trailing content accepted", p.Witness(path)...)
+		}
+		if len(reads) == 0 {
+			c.Undecided(key+"#whitespace-only", p.Pos(fn.Pos()), "no read of the input after unmarshalling found")
+		}
+		c.Check(!badConst, key+"#whitespace-set", p.Pos(fn.Pos()), "bytes skipped after the item are within {NUL, TAB, LF, CR, SPACE}", "a non-whitespace byte value is skipped after the item")
+	}
+
+	// raw
+	if fn := p.Func("codec/raw", "", "Decode"); fn != nil {
+		key := core.FuncKey(fn)
+		var reader ssa.Value
+		if len(fn.Params) > 1 {
+			reader = fn.Params[1]
+		}
+		for _, ci := range core.Calls(fn) {
+			name, ok := assemblerCall(ci)
+			if !ok || name != "AssignBytes" {
+				continue
+			}
+			arg := ci.Common().Args[0]
+			sl := core.BackSlice(arg, core.SliceOpts{})
+			good := true
+			leaves := 0
+			var readAll *ssa.Call
+			for w := range sl {
+				switch x := w.(type) {
+				case *ssa.Call:
+					leaves++
+					switch {
+					case core.IsPkgFunc(x, "io", "ReadAll") && core.Strip(x.Call.Args[0]) == reader:
+						readAll = x
+					case core.IsMethodNamed(x, "Bytes"):
+						// must be the reader itself, type-asserted
+						rs := core.BackSlice(core.Receiver(x), core.SliceOpts{})
+						if !rs[reader] {
+							good = false
+						}
+					default:
+						good = false
+					}
+				case *ssa.Slice, *ssa.Parameter, *ssa.Alloc, *ssa.MakeSlice:
+					good = false
+				case *ssa.Const:
+					if !x.IsNil() {
+						good = false
+					}
+				}
+			}
+			c.Check(good && leaves > 0 && readAll != nil, key+"#whole-input", p.Pos(ci.Pos()), "AssignBytes receives exactly io.ReadAll(r) or the reader's whole Bytes()", "AssignBytes receives something other than the whole input (io.ReadAll(r) / r.Bytes())")
+			if readAll != nil {
+				nilEdges := core.EdgesWhere(fn, func(r core.Rel) bool { return r.Op == token.EQL && extractOf(r.X, readAll, 1) && core.IsNilConst(r.Y) })
+				path, reached := core.Reach(fn, readAll, isTarget(ci), nilEdges, nil)
+				c.Check(!reached, key+"#readall-error", p.Pos(readAll.Pos()), "AssignBytes unreachable when io.ReadAll failed", "AssignBytes reachable after a failed io.ReadAll (partial data assigned)", p.Witness(path)...)
+			}
+		}
+	} else {
+		c.Undecided("codec/raw.Decode", "-", "raw decoder not found")
+	}
+}
